@@ -121,7 +121,15 @@ def rebuild(g, repl, roots):
     return ng, [[mp(l) for l in vec] for vec in roots]
 
 
-def check_equal(outs_a, outs_b, workdir, budget_s=600, seed=1, log=None, assume=()):
+def _resplit(flat, shape):
+    out, i = [], 0
+    for v in shape:
+        out.append(flat[i:i + len(v)])
+        i += len(v)
+    return out
+
+
+def check_equal(outs_a, outs_b, workdir, budget_s=600, seed=1, log=None, assume=(), strategy="levels"):
     """outs_a / outs_b: lists of bit-literal lists over aig.G.  returns (verdict, info)
     verdict: 'equal' | 'different' (info['assignment'] = input name -> bool) | 'unknown'"""
     g = aig.G
@@ -132,6 +140,9 @@ def check_equal(outs_a, outs_b, workdir, budget_s=600, seed=1, log=None, assume=
     B = [list(v) for v in outs_b]
     assume = [l for l in assume if l != 1]      # input constraints: output miters are decided under them
     extra_patterns = []
+    cut_done = False
+    lmax = 160
+    rare_done = set()
     nwords = 2
     batch = 64
     for it in range(100000):
@@ -140,8 +151,46 @@ def check_equal(outs_a, outs_b, workdir, budget_s=600, seed=1, log=None, assume=
             return "equal", dict(st.__dict__, iterations=it, nodes=g.size())
         if time.time() - t_start > budget_s:
             break
+        # cut-point attempt on the differing output pairs: what the two cones share becomes free variables, so a pair
+        # that differs only in the association of its last few operations is closed without the (huge) common cone
+        if it > 0 and len(diff) <= 64 and not cut_done:
+            cut_done = True
+            repl0 = {}
+            for x, y in diff:
+                if x <= 1 or y <= 1 or time.time() - t_start > budget_s:
+                    continue
+                shared = aig.cone(g, [x]) & aig.cone(g, [y])
+                shared.discard(x >> 1)
+                shared.discard(y >> 1)
+                m = g.XOR(x, y)
+                nv, cl, vm = aig.to_cnf(g, [m] + list(assume), stop=shared)
+                st.sat_calls += 1
+                t1 = time.time()
+                res, model = kissat(nv, cl, 10, workdir)
+                st.sat_time += time.time() - t1
+                if res == "unsat":
+                    st.unsat += 1
+                    hi, lo = (x, y) if (x >> 1) > (y >> 1) else (y, x)
+                    repl0[hi >> 1] = lo ^ (hi & 1)
+            if repl0:
+                st.merged += len(repl0)
+                st.rebuilds += 1
+                ng, (A2, B2, assume) = rebuild(g, repl0, [[l for v in A for l in v], [l for v in B for l in v], assume])
+                A, B = _resplit(A2, A), _resplit(B2, B)
+                aig.G = ng
+                g = ng
+                continue
+        cut_done = False
         # counterexample patterns occupy the low bits of the simulation words
         val, mask = aig.simulate(g, nwords, rnd, extra_patterns[-(64 * nwords - 32):])
+        if assume:
+            # only patterns that satisfy the input constraints count; merges are then proved under the constraints
+            okm = mask
+            for al in assume:
+                okm &= (val[al >> 1] ^ (mask if al & 1 else 0)) if al > 1 else (mask if al else 0)
+            if okm != mask:
+                val = [v & okm for v in val]
+                mask = okm
         # a differing output pair with different signatures is a real difference candidate: check it first
         for x, y in diff:
             vx = val[x >> 1] ^ (mask if x & 1 else 0) if x > 1 else (mask if x else 0)
@@ -157,6 +206,16 @@ def check_equal(outs_a, outs_b, workdir, budget_s=600, seed=1, log=None, assume=
             sig = val[n]
             key = min(sig, sig ^ mask)
             classes.setdefault(key, []).append(n)
+        # depth of every node of the cone: shallow candidates are proved first, so that after the rebuild the deeper
+        # ones are structurally identical instead of hard SAT problems
+        level = {}
+        for n in (aig.topo(g) if g.affine else sorted(cn)):
+            if n in cn:
+                lv = 0
+                for l in g.children(n):
+                    if l > 1:
+                        lv = max(lv, level.get(l >> 1, 0) + 1)
+                level[n] = lv
         cands = []
         for key, nodes in classes.items():
             if len(nodes) < 2 or key == 0:
@@ -167,9 +226,20 @@ def check_equal(outs_a, outs_b, workdir, budget_s=600, seed=1, log=None, assume=
                 pol = 0 if val[n] == val[rep] else 1
                 # small classes first (a genuine joint is typically a class of two: one node per implementation),
                 # then nodes closest to the inputs
-                cands.append((len(nodes), n, 2 * rep + pol))
+                cands.append((level[n], len(nodes), n, 2 * rep + pol))
         cands.sort()
-        cands = [(n, r) for _, n, r in cands]
+        if cands and strategy == "levels":
+            # depth schedule: everything up to depth lmax first; lmax doubles only when nothing shallower is left, so
+            # the hard (deep) candidates are tried after the rebuilds have made most of them structurally identical
+            while True:
+                sel = [c for c in cands if c[0] <= lmax]
+                if sel or lmax > cands[-1][0]:
+                    break
+                lmax *= 2
+            if not sel:
+                sel = cands
+            cands = sel
+        cands = [(n, r) for _, _, n, r in cands]
         if not cands:
             # nothing to merge: try the output miters directly
             ok_all = True
@@ -185,6 +255,38 @@ def check_equal(outs_a, outs_b, workdir, budget_s=600, seed=1, log=None, assume=
             break
         repl = {}
         tried = 0
+        # rare nodes (constant under simulation but for <= 1 pattern: carry chains, all-ones detectors ...) all share
+        # one signature and would only be split one refutation at a time: ask the solver for an input that makes each of
+        # the shallowest ones take its rare value (a new pattern), or learn that it is constant (merged with 0 / 1)
+        rare = []
+        for n in cn:
+            sg = val[n]
+            k0 = min(sg, sg ^ mask)
+            if k0 & (k0 - 1) == 0 and g.kind[n] != 1:
+                rare.append((level[n], n))
+        rare.sort()
+        nr = 0
+        for _, n in rare:
+            if nr >= 24 or time.time() - t_start > budget_s:
+                break
+            if (g.kind[n], g.a[n], g.b[n]) in rare_done:
+                continue
+            rare_done.add((g.kind[n], g.a[n], g.b[n]))
+            nr += 1
+            sg = val[n]
+            mostly0 = bin(sg).count("1") <= 1
+            lit = 2 * n if mostly0 else 2 * n + 1
+            nv, cl, vm = aig.to_cnf(g, [lit])
+            st.sat_calls += 1
+            t1 = time.time()
+            res, model = kissat(nv, cl, 5, workdir)
+            st.sat_time += time.time() - t1
+            if res == "sat":
+                st.sat += 1
+                extra_patterns.append({g.names[k]: model.get(v, False) for k, v in vm.items() if g.kind[k] == 1})
+            elif res == "unsat":
+                st.unsat += 1
+                repl[n] = 0 if mostly0 else 1
         # batch proving: one SAT call asserts "some candidate pair of the chunk differs"; UNSAT proves the whole chunk;
         # SAT: the model names the refuted pairs (their miter variables are true), they are dropped, the model becomes
         # a simulation pattern, and the rest of the chunk is retried
@@ -206,10 +308,10 @@ def check_equal(outs_a, outs_b, workdir, budget_s=600, seed=1, log=None, assume=
                         live.append((n, r, m))
                 if not live:
                     break
-                nv, cl, vm = aig.to_cnf(g, [], any_of=[m for _, _, m in live])
+                nv, cl, vm = aig.to_cnf(g, list(assume), any_of=[m for _, _, m in live])
                 st.sat_calls += 1
                 t1 = time.time()
-                res, model = kissat(nv, cl, 60, workdir)
+                res, model = kissat(nv, cl, 15 if repl else 60, workdir)
                 st.sat_time += time.time() - t1
                 if res == "unsat":
                     st.unsat += 1
@@ -221,6 +323,8 @@ def check_equal(outs_a, outs_b, workdir, budget_s=600, seed=1, log=None, assume=
                 if res != "sat":
                     st.unknown += 1
                     batch = max(4, batch // 4)
+                    if repl:
+                        pos = len(cands)    # deeper candidates got hard: merge what is proved first
                     break
                 st.sat += 1
                 extra_patterns.append({g.names[k]: model.get(v, False) for k, v in vm.items() if g.kind[k] == 1})
@@ -254,6 +358,8 @@ def check_equal(outs_a, outs_b, workdir, budget_s=600, seed=1, log=None, assume=
             g = ng
         elif tried == 0:
             break
+        if not proved:
+            lmax *= 2
         if nwords < 8:
             nwords += 1
     diff = [(x, y) for va, vb in zip(A, B) for x, y in zip(va, vb) if x != y]
